@@ -360,12 +360,18 @@ def plan(tier, seed):
            ("script", dict(skeleton="TX", script=[L_("up3", "country", "fr"), L_("up3", "country", "my")])),
            ("script", dict(skeleton="TX", script=[dict(k="list_assign", obj="up", attr="devices", names=["dev2"]), num("dev2", "lifespan")])),
            ("script", dict(skeleton="TX", script=[L_("job3", "server", "srv2"), num("job3", "ram_needed")]))]
+    # lists re-assigned with the same members in another order or multiplicity (T4: a job twice in a step, three steps)
+    LA_ = lambda o, a, names: dict(k="list_assign", obj=o, attr=a, names=names)  # noqa
+    reorder = [("script", dict(skeleton="T4", script=[LA_("uj", "uj_steps", ["step2", "step1", "step3"])], extra_sym=["step1.user_time_spent", "step2.user_time_spent"])),
+               ("script", dict(skeleton="T4", script=[LA_("step1", "jobs", ["jobA"]), LA_("step1", "jobs", ["jobA", "jobA"])])),
+               ("script", dict(skeleton="T4", script=[LA_("uj", "uj_steps", ["step1", "step2", "step3", "step1"]), LA_("uj", "uj_steps", ["step1", "step2", "step3"])])),
+               ("script", dict(skeleton="T1", script=[LA_("up", "devices", ["dev", "dev"]), LA_("up", "devices", ["dev"])]))]
     if tier == "quick":
         rnd.shuffle(shared)
-        p += tx
+        p += tx + reorder
         p += shared[:14] + links9 + follow9 + histories + links[:8] + follow[:3] + groups + fixed
     else:
-        p += tx + shared + links9 + follow9 + histories + links + follow + groups + fixed
+        p += tx + reorder + shared + links9 + follow9 + histories + links + follow + groups + fixed
         # all ordered pairs of single numeric edits on T1 touching different objects: seeded sample of 60
         singles = [e for e, inv in single_edits("T1") if e["k"] == "num"]
         pairs = [(a, b) for a in singles for b in singles if a["obj"] != b["obj"]]
